@@ -8,7 +8,7 @@ def reg(pid, text, note, technique, design_ref):
 reg("C20",
     "TLC exhaustively checks the ThemeStack design (dictionary collapse at push == declarative lookup rule, pop restores, base never popped) "
     "and enumerates every push/pop/use_theme history of 3 (quick) / 4 (thorough) operations; each of those plus seeded random histories "
-    "(<= 14 ops) is executed on a real Console and the get_style() table observed after every call is validated step by step by TLC "
+    "(<= 14 ops) and tall stacks of 17-40 nested, nearly all inheriting pushes walked up and down is executed on a real Console and the get_style() table observed after every call is validated step by step by TLC "
     "against the specification's actions (trace validation).  Bounded, not a proof about the Python code. The generator was audited against the quantifier and the public options of the anchored code; the dimensions it varies and the corners it deliberately keeps out are listed per property in DESIGN.md §13.",
     "Trusted: projection of a Style to an id by ==; use_theme blocks well nested; 4 names / 2 style ids / 9 themes.",
     "TLA+ spec ThemeStack.tla; TLC exhaustive model check + TLC-generated histories replayed on the real Console + TLC trace validation of recorded histories",
@@ -44,7 +44,7 @@ reg("C12",
     "Progress.tla specifies task accounting at the atomic grain; MC_Progress (M1) checks completed = last set + advances, finish / fixed finish time, "
     "non-negative speed and time remaining over every sequential history of 3 (quick) / 4 (thorough) calls on two tasks; MC_ProgressConc models advance() "
     "at the grain of the code's pre-emption points (clock read, lock, read-modify-write, release) for 2-3 threads and must hold with the clock read "
-    "under the lock and be violated (vacuity guard) with the pinned order.  TLC-generated and random sequential histories run on a real Progress with "
+    "under the lock and be violated (vacuity guard) with the pinned order.  TLC-generated and random sequential histories (incl. histories that fill the speed window: more than 1000 samples inside the estimate period) run on a real Progress with "
     "a mock clock and are validated call by call; concurrent programs (2-4 threads) run on real threads under the deterministic scheduler (DFS with "
     "pre-emption bound 2 at lock/clock/write points, bound 1 at every line and at every opcode of advance/update/reset/add_task, random and PCT "
     "schedules) and each recorded history is accepted iff TLC finds a linearisation; track() over lists/generators with the real _TrackThread scheduled.  Bounded.",
@@ -149,7 +149,7 @@ reg("C03",
     "links, bell control segments) are printed on real consoles of every colour system x NO_COLOR x terminal x legacy-windows configuration, the SAME Style objects on up to 4 "
     "consoles in a row; the written characters are tokenised lexically and TLC interprets them with Sgr.tla and judges: visible characters, per-character attributes / "
     "foreground / background / link against what the style means (after the documented down-conversion), no leak past the end, no escape with colour disabled, no colour "
-    "parameter under NO_COLOR, no control code on a non-terminal.  Bounded sampling judged by a formal terminal model. The repository's own test-suite is a further trace source: tools/pytest_sgrtrace.py logs every Console._render_buffer call the 441 tests make (segments in, characters out) as a Trace_Sgr record and TLC judges each (180 distinct records on the unchanged tree). The generator was audited against the quantifier and the public options of the anchored code; the dimensions it varies and the corners it deliberately keeps out are listed per property in DESIGN.md §13.",
+    "parameter under NO_COLOR, no control code on a non-terminal.  Bounded sampling judged by a formal terminal model. One flush of several hundred segments (neighbours with equal SGR parameters and different hyperlinks) is part of the hand-listed sweep. The repository's own test-suite is a further trace source: tools/pytest_sgrtrace.py logs every Console._render_buffer call the 441 tests make (segments in, characters out) as a Trace_Sgr record and TLC judges each (180 distinct records on the unchanged tree). The generator was audited against the quantifier and the public options of the anchored code; the dimensions it varies and the corners it deliberately keeps out are listed per property in DESIGN.md §13.",
     "Trusted: engine/sgrlex.py; expected pens are read from the Style's public getters and Color.downgrade (the down-conversion itself is C18's subject). Console wide enough "
     "not to wrap.",
     "TLA+ spec Sgr.tla (independent terminal automaton) + MC_Sgr (encoder design vs automaton, exhaustive over a pen domain) + TLC validation of the tokenised output of real consoles (Trace_Sgr)",
